@@ -308,6 +308,8 @@ class ResubSim(Sim):
                 self.viol("C01", "batch-id-reused", f"batch identifier reused across (re)submissions: {sorted(x for x in set(scripts) if scripts.count(x) > 1)}")
             last = self.obs[-1] if self.obs else None
             self.complete = bool(last and last["complete"])
+            if self.scen.get("check_events") and self.complete:
+                self.final_events()  # the events of every round, the resubmissions included, against the consolidated summary
             return
         Sim.final_checks(self)
 
